@@ -75,7 +75,7 @@ func (r *yieldRewriter) rewriteRanges(block *ast.BlockStmt) {
 					if tv, ok := r.pkg.TypeInfo().Types[n.X]; ok && tv.Value != nil && n.Tok == token.ASSIGN && !ignoreKey {
 						// a constant bound takes the type of the iteration variable,
 						// e.g. var i uint8; for i = range 3
-						if key, _ := n.Key.(*ast.Ident); key != nil {
+						if key, _ := n.Key.(*ast.Ident); key != nil && isIntegerType(r.pkg.TypeOf(key)) {
 							// typed by example, the type of the variable needn't be spelled
 							// (generic, unexported, not imported here or shadowed types, rune consts)
 							iter := X.Call(r.SeqSelect(cstNewIntegerIterOf), key, n.X)
@@ -151,6 +151,19 @@ func (r *yieldRewriter) rewriteRanges(block *ast.BlockStmt) {
 		}
 		return true
 	})
+}
+
+// integer type (not an interface: var a any; for a = range 3 gives a the dynamic type int;
+// a type param keeps the conversion path)
+func isIntegerType(ty types.Type) bool {
+	if ty == nil {
+		return false
+	}
+	if _, isParam := ty.(*types.TypeParam); isParam {
+		return false
+	}
+	basic, _ := ty.Underlying().(*types.Basic)
+	return basic != nil && basic.Info()&types.IsInteger != 0
 }
 
 // whether evaluating the expr calls a func or receives from a chan (len(x) of such an array isn't constant),
